@@ -26,7 +26,7 @@ def main():
                         "period": 0, "is_last": False, "jit_filter": False})
     json.dump(c, open("/verif/selftest/scs.json", "w"))
     ctx = Ctx("C09")
-    hists, _ = c09.generate_histories(ctx, 1, 10)
+    hists, _, _ = c09.generate_histories(ctx, 3, 10)   # the first one passes a held params object (filled template)
     models, psets, inits = {}, {}, {}
     for mk in ("1", "2"):
         mm = gen.rand_model(rng, c09.PROF)
